@@ -2046,7 +2046,7 @@ Qed.
 
 (* ===== part M: single page with a caller-supplied paging state ===== *)
 Theorem single_thm nodes st ps : NoDup nodes -> page_ok nodes ps ->
-  (forall k, In k (fst (single_run st ps)) -> k = (0%nat, st)) /\
+  List.length (fst (single_run st ps)) = List.length (fst (fetch_one MSession None ps)) /\
   match single_expected (List.length nodes) ps with
   | PoResp r => exists c, snd (single_run st ps) = FCompleted c r
   | PoErr e => snd (single_run st ps) = FFailed e
@@ -2055,10 +2055,14 @@ Theorem single_thm nodes st ps : NoDup nodes -> page_ok nodes ps ->
 Proof.
   intros Hn Hp. unfold single_run, single_expected.
   pose proof (fetch_spec MSession nodes None ps Hn Hp (or_intror I)) as F.
-  destruct (fetch_one MSession None ps) as [ts r]. cbn [fst snd]. split.
-  - intros k Hk. apply in_map_iff in Hk as (t & <- & _). reflexivity.
-  - destruct (spec_page MSession (List.length nodes) ps).
-    + destruct F as (ts' & c & E & _). injection E as _ ->. eauto.
-    + destruct F as (ts' & E). injection E as _ ->. reflexivity.
-    + destruct F as (ts' & c & E). injection E as _ ->. eauto.
+  destruct (fetch_one MSession None ps) as [ts r]. cbn [fst snd]. split; [apply map_length|].
+  destruct (spec_page MSession (List.length nodes) ps).
+  - destruct F as (ts' & c & E & _). injection E as _ ->. eauto.
+  - destruct F as (ts' & E). injection E as _ ->. reflexivity.
+  - destruct F as (ts' & c & E). injection E as _ ->. eauto.
 Qed.
+
+(* a single-page request starts from a fresh plan: its attempts obey the same node rules *)
+Theorem single_targets ps : plan_fine ps ->
+  follows (ps_faults ps) None [] (fst (fetch_one MSession None ps)) = true.
+Proof. intros [Hnd Hne]. apply fetch_follows; assumption. Qed.
